@@ -39,7 +39,7 @@ FLAG = {"sources": "s", "outputs": "o", "attachments": "a", "metadata": "m", "id
 
 def plan(tier, seed):
     if tier == "quick":
-        return [{"i": i, "n": NSHARDS, "pairs_per_cfg": 2, "timeout": 900} for i in range(NSHARDS)]
+        return [{"i": i, "n": NSHARDS, "pairs_per_cfg": 10, "timeout": 900} for i in range(NSHARDS)]
     return [{"i": i, "n": NSHARDS, "pairs_per_cfg": 26, "timeout": 3000} for i in range(NSHARDS)]
 
 
